@@ -450,22 +450,49 @@ func c10Run(rt *hookrt.Runtime, sc *c10Scenario, seed int64) {
 				continue
 			}
 			tid := newTid()
-			res := "ok"
-			rt.Stamp("api.stop.call", fmt.Sprint(tid), fmt.Sprint(op.H))
-			func() {
-				defer func() {
-					if r := recover(); r != nil {
-						if s, ok := r.(string); ok && s == "handler is not started" {
-							res = "notstarted"
-						} else {
-							res = "nilpanic"
-							note(fmt.Sprintf("Stop(%d) panicked: %v", op.H, r))
+			h := op.H
+			stopDone := make(chan struct{})
+			asyncWg.Add(1)
+			go func() {
+				defer asyncWg.Done()
+				defer close(stopDone)
+				res := "ok"
+				rt.Stamp("api.stop.call", fmt.Sprint(tid), fmt.Sprint(h))
+				func() {
+					defer func() {
+						if r := recover(); r != nil {
+							if s, ok := r.(string); ok && s == "handler is not started" {
+								res = "notstarted"
+							} else {
+								res = "nilpanic"
+								note(fmt.Sprintf("Stop(%d) panicked: %v", h, r))
+							}
 						}
-					}
+					}()
+					handlers[h].Stop()
 				}()
-				handlers[op.H].Stop()
+				rt.Stamp("api.stop.ret", fmt.Sprint(tid), res)
 			}()
-			rt.Stamp("api.stop.ret", fmt.Sprint(tid), res)
+			select {
+			case <-stopDone:
+			case <-time.After(c10ObsWait):
+				// Stop is documented as asynchronous: it must not wait for anybody
+				rt.Stamp("api.stop.blocked", fmt.Sprint(tid), fmt.Sprint(h))
+			}
+		case "await":
+			// wait until the hook point op.Tag has been passed op.N times (a goroutine is parked there by a rule)
+			for deadline := time.Now().Add(c10ObsWait); time.Now().Before(deadline); {
+				n := 0
+				for _, e := range rt.Log() {
+					if e.Point == op.Tag {
+						n++
+					}
+				}
+				if n >= op.N {
+					break
+				}
+				time.Sleep(300 * time.Microsecond)
+			}
 		case "stopped_get":
 			if op.H >= len(handlers) {
 				continue
@@ -700,6 +727,19 @@ func c10Forced() []*c10Scenario {
 	// Close BEFORE Run: Close releases and removes the never-started handlers, Run then starts nothing and returns nil
 	add("close-before-run", []c10Op{opAdd(0, true), opAdd(-1, true), op("close"), op("run"), op("wait_run"), op("poll_running"), opH("stopped_get", 0), op("run2"), opRH(1, false, false)})
 	add("close-before-run-waiting", []c10Op{opAdd(0, true), op("close"), op("run"), op("wait_running"), opAdd(-1, true), opRH(1, false, false), opH("started", 1), opH("stop", 1), op("wait_run")})
+	// Stop() of a started handler while somebody sits inside handlersLock: a RunHandlers held inside its loop
+	// (the Subscribe of a newly added handler takes long) / a Close held right after it took the locks
+	add("stop-while-runhandlers-holds-lock", []c10Op{opAdd(0, true), op("run"), op("wait_running"), opH("started", 0), opAdd(-1, true), opRH(1, false, true),
+		{K: "await", Tag: "router.life.rh.subscribed", N: 2}, opH("stop", 0), opMark("g"), opH("wait_stopped", 0), opH("started", 1), opH("probe", 1), opH("stop", 1), opH("wait_stopped", 1), op("wait_run")},
+		c10Park{Point: "router.life.rh.subscribed", Nth: 2, Until: "api.mark.g", Timeout: 9000})
+	add("stop-while-close-holds-lock", []c10Op{opAdd(0, true), opAdd(-1, true), op("run"), op("wait_running"), opH("started", 0), {K: "close", Async: true},
+		{K: "await", Tag: "router.life.close.closing", N: 1}, opH("stop", 0), opH("stopped_get", 1), opMark("g"), op("wait_run"), opH("wait_stopped", 0), opH("wait_stopped", 1)},
+		c10Park{Point: "router.life.close.closing", Nth: 1, Until: "api.mark.g", Timeout: 9000})
+	// the Run context is cancelled BEFORE Run / during start-up: Run still subscribes everything, the router closes itself, Run returns nil
+	add("cancel-before-run", []c10Op{opAdd(0, true), opAdd(-1, true), op("cancel"), op("run"), op("wait_run"), op("poll_running"), opH("wait_stopped", 0), opH("wait_stopped", 1), op("run2")})
+	add("cancel-during-startup", []c10Op{opAdd(0, true), opAdd(-1, true), opAdd(1, true), op("run"), {K: "await", Tag: "router.life.rh.subscribed", N: 1}, op("cancel"), op("wait_run"), op("poll_running"),
+		opH("wait_stopped", 0), opH("wait_stopped", 1), opH("wait_stopped", 2)},
+		c10Park{Point: "router.life.rh.subscribed", Nth: 1, Until: "api.cancel", Timeout: 9000})
 	// second Run after Close / after the context was cancelled
 	add("second-run-after-close", []c10Op{opAdd(-1, true), op("run"), op("wait_running"), op("run2"), op("close"), op("wait_run"), op("run2"), op("poll_running"), op("run2")})
 	add("second-run-after-cancel", []c10Op{opAdd(0, true), op("run"), op("wait_running"), op("cancel"), op("wait_run"), op("run2"), op("run2")})
@@ -798,6 +838,20 @@ func c10Random(rng *rand.Rand, id int) *c10Scenario {
 	}
 	if len(hs) > 0 && rng.Intn(5) == 0 {
 		ops = append(ops, opH("stopped_get", 0), opH("stop", 0))
+	}
+	if len(hs) > 0 && rng.Intn(12) == 0 {
+		// the context is cancelled before Run is called: everything is subscribed, then the router closes itself
+		weak := false
+		for _, h := range hs {
+			weak = weak || !h.hon
+		}
+		ops = append(ops, op("cancel"), op("run"))
+		if weak {
+			ops = append(ops, op("wait_running"), op("close"))
+		}
+		ops = append(ops, op("wait_run"), op("poll_running"), op("run2"))
+		sc.Ops = ops
+		return sc
 	}
 	ops = append(ops, op("run"))
 	if rng.Intn(6) != 0 {
